@@ -176,5 +176,7 @@ NoSpuriousReturn == (out = -1) => stop
 \* the future's output is returned only when it completed
 OutputOnlyIfComplete == (out = 0) => woken >= Need
 SInv_C11 == WakeFlagKept /\ NoSleepOnPending /\ NoSpuriousReturn /\ OutputOnlyIfComplete
+\* end-to-end form (used to obtain *complete* counterexample schedules from the variants)
+EndInv == finished => Inv_C11
 Done == finished
 =============================================================================
